@@ -1006,6 +1006,32 @@ func lgFormats(c *lgCase, k *lgConc, tables []*benchstat.Table) *lgFail {
 					}
 				}
 			}
+			// the mean cells of the text say the means (to the three digits printed), whatever unit
+			// prefix the row's scaler chose: time in seconds from ns, throughput in B/s from MB/s
+			allThere := true
+			for _, m := range r.Metrics {
+				if m.Unit == "" {
+					allThere = false
+				}
+			}
+			if allThere && len(toks) >= 1+len(r.Metrics) {
+				for i, m := range r.Metrics {
+					cell, _, _ := strings.Cut(toks[1+i], " ±")
+					got, ok := lgTextValue(strings.TrimSpace(cell), m.Unit)
+					want := m.Mean
+					if lgHasBase(m.Unit, "ns/op") || lgHasBase(m.Unit, "ns/GC") {
+						want = m.Mean * 1e-9
+					} else if lgHasBase(m.Unit, "MB/s") {
+						want = m.Mean * 1e6
+					}
+					if !ok {
+						return lgF("text-mean", "text: row %q config %d: cannot read the mean cell %q (unit %s)", r.Benchmark, i+1, toks[1+i], m.Unit)
+					}
+					if math.Abs(got-want) > 0.0051*math.Max(math.Abs(want), math.Abs(got))+lgTextQuantum(cell) {
+						return lgF("text-mean", "text: row %q config %d: the mean cell %q reads as %v, the table's mean is %v %s (= %v in the cell's base unit)", r.Benchmark, i+1, toks[1+i], got, m.Mean, m.Unit, want)
+					}
+				}
+			}
 			// ---- csv
 			l, ok = nextC()
 			if !ok {
@@ -1050,4 +1076,52 @@ func lgFormats(c *lgCase, k *lgConc, tables []*benchstat.Table) *lgFail {
 		return lgF("csv-format", "csv: %d surplus lines, first %q", len(cl)-ci, cl[ci])
 	}
 	return nil
+}
+
+func lgHasBase(u, base string) bool { return u == base || strings.HasSuffix(u, "-"+base) }
+
+var lgCellRe = regexp.MustCompile(`^(-?[0-9]+(?:\.[0-9]+)?)(ns|µs|ms|s|[kMGT]?)(B/s|B)?$`)
+
+// lgTextValue reads a mean cell of the text rendering: a number, an optional prefix (time units
+// for time metrics, SI otherwise) and the unit letters the scaler appends.
+func lgTextValue(cell, unit string) (float64, bool) {
+	m := lgCellRe.FindStringSubmatch(cell)
+	if m == nil {
+		return 0, false
+	}
+	x, err := strconv.ParseFloat(m[1], 64)
+	if err != nil {
+		return 0, false
+	}
+	switch m[2] {
+	case "ns":
+		x *= 1e-9
+	case "µs":
+		x *= 1e-6
+	case "ms":
+		x *= 1e-3
+	case "k":
+		x *= 1e3
+	case "M":
+		x *= 1e6
+	case "G":
+		x *= 1e9
+	case "T":
+		x *= 1e12
+	}
+	return x, true
+}
+
+// lgTextQuantum is half a unit of the last digit printed, in the cell's base unit.
+func lgTextQuantum(cell string) float64 {
+	m := lgCellRe.FindStringSubmatch(strings.TrimSpace(cell))
+	if m == nil {
+		return 0
+	}
+	q := 0.5
+	if i := strings.IndexByte(m[1], '.'); i >= 0 {
+		q = 0.5 * math.Pow(10, -float64(len(m[1])-i-1))
+	}
+	one, _ := lgTextValue("1"+m[2]+m[3], "")
+	return q * one * 1.0001
 }
